@@ -147,6 +147,7 @@ def export_group(g, workdir):
 
 # ------------------------------------------------------------------ worker
 _IR_CACHE = {}
+_BASE_CACHE = {}
 
 
 def load_ir(path):
@@ -198,9 +199,15 @@ def run_task(task):
     try:
         ir = load_ir(task['ir'])
         ex = make_exec(ir, task['opts'], task['tier'])
-        ex.build_base()
-        if task['mode'] == 'split':
-            summ = ex.explore(task['fq_root'], seeds=task['seeds'], stop_at_queue=task['nsplit'],
+        bkey = (task['ir'], json.dumps(task['opts'], sort_keys=True), task['tier'])
+        bc = _BASE_CACHE.get(bkey)
+        if bc is None:
+            ex.build_base()
+            _BASE_CACHE[bkey] = (ex.base_heap, ex.base_globals, ex.init_notes, ex.stats.get('init_instrs', 0))
+        else:
+            ex.build_base(adopt=bc)
+        if task['mode'] == 'chunk':
+            summ = ex.explore(task['fq_root'], seeds=task['seeds'], max_paths=task['chunk'],
                               deadline=task['deadline'])
         else:
             summ = ex.explore(task['fq_root'], seeds=task['seeds'], deadline=task['deadline'])
@@ -414,30 +421,44 @@ def main():
         ir_roots = json.load(open(g.ir_path))['roots']
         g.fq = {r.rsplit('.', 1)[1]: r for r in ir_roots}
     results = {}
-    pool = mp.Pool(a.jobs, maxtasksperchild=8)
+    pool = mp.Pool(a.jobs, maxtasksperchild=400)
     try:
-        # phase 1: roots with par>1 are first split breadth-first
-        pending = []
+        # dynamic work sharing: every task explores at most `chunk` paths below its prefixes and hands the
+        # unexplored prefixes back; the master re-queues them (so deep, comb-shaped trees still spread out)
+        import queue as _q
+        done_q = _q.Queue()
+        inflight = 0
+        chunk0 = 24
+
+        def submit(t, base, seeds, chunk):
+            nonlocal inflight
+            inflight += 1
+            pool.apply_async(run_task, (dict(base, mode='chunk', seeds=seeds, chunk=chunk),),
+                             callback=lambda r, t=t, base=base: done_q.put((t, base, r)),
+                             error_callback=lambda e, t=t, base=base: done_q.put((t, base, dict(root=t['root'], ok=False, error='engine error: %r' % (e,)))))
+
         for t in tasks:
             g, root, opts = t['g'], t['root'], t['opts']
-            base = dict(ir=g.ir_path, root=root, fq_root=g.fq[root], opts=opts, tier=tier, seeds=[[]],
-                        deadline=deadline)
-            par = int(opts.get('par', '1'))
-            if tier == 1 and 't_par' in opts:
-                par = int(opts['t_par'])
-            if par > 1:
-                pending.append((t, pool.apply_async(run_task, (dict(base, mode='split', nsplit=par * 3),)), base, True))
-            else:
-                pending.append((t, pool.apply_async(run_task, (dict(base, mode='full'),)), base, False))
-        phase2 = []
-        for t, ar, base, is_split in pending:
-            r = ar.get()
+            base = dict(ir=g.ir_path, root=root, fq_root=g.fq[root], opts=opts, tier=tier, deadline=deadline)
+            submit(t, base, [[]], chunk0)
+        while inflight:
+            t, base, r = done_q.get()
+            inflight -= 1
             results.setdefault(t['root'], []).append(r)
-            if is_split and r.get('ok') and r['summary']['pending']:
-                for pfx in r['summary']['pending']:
-                    phase2.append((t, pool.apply_async(run_task, (dict(base, mode='full', seeds=[pfx]),))))
-        for t, ar in phase2:
-            results[t['root']].append(ar.get())
+            if r.get('ok') and r['summary']['pending']:
+                pend = r['summary']['pending']
+                r['summary']['pending'] = []
+                if time.time() > deadline:
+                    r['results'].append(dict(status='inconclusive', kind='deadline', where=t['root'],
+                                             msg='%d pending path prefixes not explored' % len(pend)))
+                    continue
+                # spread: one prefix per task while the pool is hungry, otherwise small batches
+                nb = max(1, min(len(pend), a.jobs * 2 - inflight)) if inflight < a.jobs * 2 else 1
+                per = (len(pend) + nb - 1) // nb
+                paths_so_far = sum(x['stats']['paths'] for x in results[t['root']] if x.get('ok'))
+                chunk = 24 if paths_so_far < 400 else (100 if paths_so_far < 5000 else 400)
+                for i in range(0, len(pend), per):
+                    submit(t, base, pend[i:i + per], chunk)
     finally:
         pool.close()
         pool.join()
